@@ -515,6 +515,54 @@ def case_panic_recover(rng, exact=False, bu_prob=0.3):
     return p.lines() + lines, dict(injected=f"panic in task {t} guard {(gsrc, gval)}", shape="abort-repair-rebuild-rebuild")
 
 
+def case_same_session_retry(rng):
+    """C19: the caller catches the panic of an aborted build and goes on using the SAME session object (`retry`): more
+    requires and bottom-up builds in that session, then new sessions after the cause has or has not been removed."""
+    r = rng.random()
+    if r < 0.6:
+        p = gen_program(rng, exact=rng.random() < 0.5)
+        n = len(p.tasks)
+        t = rng.choice(sorted(p.tasks))
+        gsrc, gval = rng.choice(p.sources), rng.randint(0, 3)
+        p.tasks[t] = inject(rng, p.tasks[t], lambda nv, rest: ("panic",), (gsrc, gval), gchk=p.rchk.setdefault((t, gsrc), 0))
+        prog, meta = p.lines(), dict(injected=f"panic in task {t} guard {(gsrc, gval)}")
+        srcs = p.sources
+    else:
+        body, meta = rng.choice([case_hidden, case_overlap, case_cycle])(rng)
+        prog = [l for l in body if l.startswith("task ")]
+        n = max(int(l.split()[1]) for l in prog)
+        srcs = sorted({int(l.split()[1]) for l in body if l.startswith("set ")}) or [1]
+        gsrc, gval, t = srcs[0], rng.randint(0, 3), rng.randint(1, n)
+    lines = [f"set {s} {rng.randint(0, 3)}" for s in srcs]
+    roots = sorted(set([rng.randint(1, max(1, t))] + ([t] if rng.random() < 0.5 else [])))
+    if rng.random() < 0.5: lines += [f"set {gsrc} {(gval + 1) % 4}", "session"] + [f"req {x}" for x in roots] + ["endsession", "cleannodes"]
+    lines += [f"set {gsrc} {gval}"]
+    changed = [gsrc]
+    for _ in range(rng.randint(1, 3)):
+        lines.append("session")
+        ops = []
+        if rng.random() < 0.35: ops.append("bu " + " ".join(map(str, changed)))
+        ops += [f"req {x}" for x in roots]
+        for o in ops: lines += [o, "retry"]
+        for _ in range(rng.randint(1, 3)):
+            q = rng.random()
+            if q < 0.5: lines += [f"req {rng.choice(roots)}", "retry"]
+            elif q < 0.8: lines += [f"req {rng.randint(1, n)}", "retry"]
+            else: lines += ["bu " + " ".join(map(str, changed)), "retry"]
+        lines += ["endsession", "cleannodes"]
+        c, changed = ext_changes(rng, Prog_sources(srcs), k=rng.randint(0, 2), values=range(0, 4))
+        if rng.random() < 0.5: c.append(f"set {gsrc} {rng.choice([v for v in range(4) if v != gval])}"); changed = sorted(set(changed + [gsrc]))
+        lines += c
+        if not changed: changed = [gsrc]
+    lines += ["session"] + [f"req {x}" for x in roots] + ["endsession", "cleannodes"]
+    return prog + lines, dict(meta, shape="same-session retry")
+
+
+class Prog_sources:
+    """minimal stand-in for `Prog` where only the sources matter (ext_changes)"""
+    def __init__(self, sources): self.sources, self.generated = list(sources), {}
+
+
 def case_panic(rng):
     """C19: a panic at any operation of any task, or a diagnosed violation, followed by further sessions after the
     cause has or has not been removed."""
